@@ -17,8 +17,10 @@ import (
 	"os"
 	"path/filepath"
 	"reflect"
+	"sort"
 	"strconv"
 	"strings"
+	"sync"
 
 	toml "github.com/pelletier/go-toml/v2"
 	"github.com/zeromicro/go-zero/core/conf"
@@ -56,6 +58,21 @@ type Case struct {
 	Texts  map[string]string `json:"texts"`  // hand-written renderings of Doc (instead of the printers')
 	NoLoad bool              `json:"noload"` // shape: only the type is of interest (white-box run)
 	Props  [][2]string       `json:"props"`  // env cases: lines of a properties file
+	// conc: every member is loaded sequentially once, then all members are loaded Rounds times each
+	// by their own goroutines at the same time
+	Members []Member `json:"members"`
+	Rounds  int      `json:"rounds"`
+}
+
+type Member struct {
+	Type   []Field `json:"type"`
+	Format string  `json:"format"` // json | yaml | toml | myaml | mtoml (mapping.Unmarshal*Bytes)
+	Text   string  `json:"text"`
+}
+
+type MemberOut struct {
+	Seq      string   `json:"seq"`      // the result of the sequential load (canonical JSON of Res)
+	Distinct []string `json:"distinct"` // the distinct results seen by the member's goroutine
 }
 
 type Res struct {
@@ -74,17 +91,18 @@ type Out struct {
 	Load2    map[string]Res    `json:"load2,omitempty"`
 	EnvOn    map[string]Res    `json:"envon,omitempty"`
 	EnvOff   map[string]Res    `json:"envoff,omitempty"`
-	EnvRef   map[string]Res    `json:"envref,omitempty"` // LoadFrom*Bytes of os.ExpandEnv(text): what UseEnv must equal
+	EnvRef   map[string]Res    `json:"envref,omitempty"`  // LoadFrom*Bytes of os.ExpandEnv(text): what UseEnv must equal
 	EnvMust  map[string]Res    `json:"envmust,omitempty"` // MustLoad / LoadConfig with conf.UseEnv() where Load succeeded
-	ByExt    map[string]Res    `json:"byext,omitempty"`  // conf.Load on c<ext>, loader chosen by the extension
-	Must     map[string]Res    `json:"must,omitempty"`   // conf.MustLoad where Load succeeded
-	Depr     map[string]Res    `json:"depr,omitempty"`   // LoadConfigFromJsonBytes / LoadConfigFromYamlBytes / LoadConfig
-	Fill     *Res              `json:"fill,omitempty"`   // conf.FillDefault on a fresh value
+	ByExt    map[string]Res    `json:"byext,omitempty"`   // conf.Load on c<ext>, loader chosen by the extension
+	Must     map[string]Res    `json:"must,omitempty"`    // conf.MustLoad where Load succeeded
+	Depr     map[string]Res    `json:"depr,omitempty"`    // LoadConfigFromJsonBytes / LoadConfigFromYamlBytes / LoadConfig
+	Fill     *Res              `json:"fill,omitempty"`    // conf.FillDefault on a fresh value
 	PropsOn  map[string]string `json:"propson,omitempty"`
 	PropsOff map[string]string `json:"propsoff,omitempty"`
 	PropsErr string            `json:"propserr,omitempty"`
 	MBytes   map[string]Res    `json:"mbytes,omitempty"`   // mapping.Unmarshal{Json,Yaml,Toml}Bytes
 	MReaders map[string]Res    `json:"mreaders,omitempty"` // mapping.Unmarshal{Json,Yaml,Toml}Reader
+	Conc     []MemberOut       `json:"conc,omitempty"`
 	Map      *Res              `json:"mapping,omitempty"`
 	Std      *Res              `json:"stdjson,omitempty"`
 }
@@ -389,7 +407,68 @@ func buildType(fs []Field) (rt reflect.Type, err error) {
 	return c17t.C17BuildStruct(fs)
 }
 
+func loadMember(rt reflect.Type, m Member) string {
+	r := run(rt, func(t any) error {
+		switch m.Format {
+		case "json":
+			return conf.LoadFromJsonBytes([]byte(m.Text), t)
+		case "yaml":
+			return conf.LoadFromYamlBytes([]byte(m.Text), t)
+		case "toml":
+			return conf.LoadFromTomlBytes([]byte(m.Text), t)
+		case "myaml":
+			return mapping.UnmarshalYamlBytes([]byte(m.Text), t)
+		case "mtoml":
+			return mapping.UnmarshalTomlBytes([]byte(m.Text), t)
+		}
+		return fmt.Errorf("unknown format %q", m.Format)
+	})
+	r.Err = "" // error texts may quote addresses; the verdict is what counts
+	b, _ := json.Marshal(r)
+	return string(b)
+}
+
+func runConc(c Case) (out Out) {
+	out.ID = c.ID
+	types := make([]reflect.Type, len(c.Members))
+	for i, m := range c.Members {
+		rt, err := buildType(m.Type)
+		if err != nil {
+			out.Fail = "build type: " + err.Error()
+			return
+		}
+		types[i] = rt
+	}
+	out.Conc = make([]MemberOut, len(c.Members))
+	for i, m := range c.Members {
+		out.Conc[i].Seq = loadMember(types[i], m)
+	}
+	var wg sync.WaitGroup
+	start := make(chan struct{})
+	for i := range c.Members {
+		wg.Add(1)
+		go func(i int) {
+			defer wg.Done()
+			seen := map[string]bool{}
+			<-start
+			for r := 0; r < c.Rounds; r++ {
+				seen[loadMember(types[i], c.Members[i])] = true
+			}
+			for k := range seen {
+				out.Conc[i].Distinct = append(out.Conc[i].Distinct, k)
+			}
+			sort.Strings(out.Conc[i].Distinct)
+		}(i)
+	}
+	close(start)
+	wg.Wait()
+	return
+}
+
 func runCase(c Case, dir string) (out Out) {
+	if c.Kind == "conc" {
+		return runConc(c)
+	}
 	out.ID = c.ID
 	rt, err := buildType(c.Type)
 	if err != nil {
